@@ -115,4 +115,22 @@ PROPS = {
         "assumptions": ["a clipped first cue may count its duration from the start of the UTC second or from its own begin",
                         "ms conversion of non-integral video times may round either way"],
     },
+    "C10": {
+        "parts": [{"pkg": "livesim", "test": "TestVerifC10", "gen": True}],
+        "clauses": ["C10.a", "C10.b", "C10.c", "C10.d"],
+        "level": "model_checking",
+        "rule": "AVC+AAC assets (bundled + generated) x {eccp_cenc, eccp_cbcs, each CPIX package of drm_config_test.json}, every mode visited and revisited in reverse order on one server instance, "
+                "x {Number, Timeline-Time, Timeline-Number} x {whole, chunked low-latency on the virtual clock} x video+audio x segment indices over a loop and its wrap (quick: 5 indices); "
+                "KID(MPD)==KID(init)==licence kid; decrypt(served)==clear(served); pre-encrypted asset built from livesim2's own eccp_cenc output",
+        "assumptions": ["mp4ff's DecryptInit/DecryptSegment is the trusted decryptor", "CPIX keys are read from the XML by the harness itself"],
+    },
+    "C09": {
+        "parts": [{"pkg": "livesim", "test": "TestVerifC09", "gen": True}],
+        "clauses": ["C09.a", "C09.b", "C09.c", "C09.d", "C09.e", "C09.f", "C09.g"],
+        "level": "model_checking",
+        "rule": "video+audio representations x ato {seg-1 sample, 3/4, 1/2, 1/4, 1/8 seg} x {clear, eccp_cenc, eccp_cbcs} x start {0,1.7e9} x segment indices {0,1,N-1,N,7N+1} "
+                "x request instants {advertised availability -1/0/+1 ms, every chunk boundary +-1 ms, after the end} x client-stall choices (one Flush may block 300 ms; <=1 deviation, all positions); "
+                "handler time bound to the vrt virtual clock, ResponseWriter records the virtual instant of every Write",
+        "assumptions": ["zero-time computation: only sleeps and client stalls advance the clock", "the chunk end is compared on the millisecond grid of the clock (floor)"],
+    },
 }
